@@ -27,3 +27,16 @@ import J2M.Props.C13
 import J2M.Props.C19
 import J2M.Cli
 import J2M.Runtime
+import J2M.Converters
+import J2M.LexRepr
+import J2M.Props.C04
+import J2M.Props.C10b
+import J2M.Props.C14
+import J2M.Props.C15
+import J2M.Props.C16
+import J2M.Props.C17
+import J2M.Props.C18
+import J2M.Props.C03
+import J2M.Props.C06
+import J2M.Props.C11
+import J2M.Props.C12
